@@ -101,6 +101,38 @@ def build_harness():
     return HARNESS_BIN
 
 
+CLI_BIN = os.path.join(BUILD, "cargo-cli", "debug", "compiler")
+_cli_built = False
+
+
+def build_cli():
+    """Build /repo's own command-line binary from the current working tree."""
+    global _cli_built
+    if _cli_built:
+        return CLI_BIN
+    env = dict(ENV, CARGO_TARGET_DIR=os.path.join(BUILD, "cargo-cli"), CARGO_NET_OFFLINE="true")
+    rc, out, err = sh(["cargo", "build", "--offline", "-p", "compiler", "--bin", "compiler"], cwd=REPO, timeout=3000, env=env)
+    if rc != 0:
+        raise Broken("cli-build", err[-4000:])
+    _cli_built = True
+    return CLI_BIN
+
+
+def run_cli(args, cwd, timeout=20):
+    """returns (kind, rc, stderr) with kind in ok/error/panic/signal/hang"""
+    try:
+        p = subprocess.run([build_cli(), *args], cwd=cwd, capture_output=True, text=True, timeout=timeout, errors="replace")
+    except subprocess.TimeoutExpired:
+        return "hang", None, ""
+    if p.returncode == 0:
+        return "ok", 0, p.stderr
+    if p.returncode == 101 or "panicked at" in p.stderr:
+        return "panic", p.returncode, p.stderr
+    if p.returncode < 0:
+        return "signal", p.returncode, p.stderr
+    return "error", p.returncode, p.stderr
+
+
 def run_harness(sub, inputs, args=(), timeout=900, shards=None):
     """Feed JSON lines to `gomlv sub`, return parsed JSON lines (same order)."""
     exe = build_harness()
